@@ -13,6 +13,7 @@ CONSTANTS
   Dev_RestoreNoResume = FALSE
   Dev_RecreateErrorLost = FALSE
   Dev_ArmIgnoresClose = FALSE
+  Dev_DrainDropsLoss = FALSE
   Hist = FALSE
 INIT Init
 NEXT Next
